@@ -32,6 +32,14 @@ def _escape_literal(value):
     return escaped.replace("\n", "\\n").replace("\r", "\\r").replace("\t", "\\t")
 
 
+def _text_filter(variable, value):
+    """
+    Returns the query line that restricts *variable* to terms whose text is *value*:
+    a literal with that lexical form, whatever its datatype is.
+    """
+    return "FILTER (STR({0}) = \"{1}\") .\n".format(variable, _escape_literal(value))
+
+
 class BaseQueryCreator:
     """
     An abstract base class for odml specific QueryCreators.
@@ -301,6 +309,18 @@ class QueryCreator(BaseQueryCreator):
         odml_uri = str(odmlns)
         self.query = "SELECT * WHERE {\n"
 
+        # Helper variables of the query: '?t1', '?t2', ... - every one is used for one object.
+        helpers = []
+
+        def text_pattern(subject, predicate, value):
+            # The RDF writer exports an attribute that is not a string as a typed
+            # literal (a date as xsd:date, a float as xsd:double). Such a literal is
+            # never equal to the plain string literal of a search value, so the
+            # object is compared by its lexical form.
+            helpers.append("?t{0}".format(len(helpers) + 1))
+            pattern = "{0} {1} {2} .\n".format(subject, predicate, helpers[-1])
+            return pattern + _text_filter(helpers[-1], value)
+
         if "Doc" in self.q_dict.keys():
             doc_attrs = self.q_dict["Doc"]
             if len(doc_attrs) > 0:
@@ -313,7 +333,10 @@ class QueryCreator(BaseQueryCreator):
                         attr = Document.rdf_map(i[0])
                         if attr:
                             re_sub = re.sub(odml_uri, "odml:", attr)
-                            self.query += "?d {0} \"{1}\" .\n".format(re_sub, _escape_literal(i[1]))
+                            if i[0] == "date":
+                                self.query += text_pattern("?d", re_sub, i[1])
+                            else:
+                                self.query += "?d {0} \"{1}\" .\n".format(re_sub, _escape_literal(i[1]))
 
         if "Sec" in self.q_dict.keys():
             sec_attrs = self.q_dict["Sec"]
@@ -349,7 +372,10 @@ class QueryCreator(BaseQueryCreator):
                         attr = Property.rdf_map(i[0])
                         if attr:
                             re_sub = re.sub(odml_uri, "odml:", attr)
-                            self.query += "?p {0} \"{1}\" .\n".format(re_sub, _escape_literal(i[1]))
+                            if i[0] == "uncertainty":
+                                self.query += text_pattern("?p", re_sub, i[1])
+                            else:
+                                self.query += "?p {0} \"{1}\" .\n".format(re_sub, _escape_literal(i[1]))
 
         self.query += "}\n"
         return self.query
